@@ -2084,7 +2084,10 @@ func execPlan(t *testing.T, pa any) (out core.Outcome) {
 		out.ProbeN(k, v)
 	}
 	out.ProbeN("disk-operations-by-go-git-helpers", res.helperOps)
-	if f := res.fail; f != nil && f.pure {
+	// (a "pure" divergence seen after a fault fired is judged like any other: the damaged initialisation may be
+	// what causes it — found by the thorough tier: a prefix search in a SHA-256 repository whose config could not be
+	// read at re-open was filed under the prefix-length defect instead of the recorded config one)
+	if f := res.fail; f != nil && f.pure && f.fault == "none" {
 		out.Fail(fmt.Sprintf("C11|%s|%s|opts:any|none", f.path, f.kind), "%s", f.msg)
 	} else if f != nil {
 		fault, kind, path := f.fault, f.kind, f.path
